@@ -112,7 +112,7 @@ FindView(k, h, r) ==
        ELSE [slot |-> "none", status |-> "Future"]
   ELSE IF h = k.C.h /\ r = k.C.r THEN [slot |-> "C", status |-> "Found"]
   ELSE IF h = k.C.h /\ r < k.C.r THEN [slot |-> "none", status |-> "BeforeCommitting"]
-  ELSE IF h = k.C.h /\ k.C.h > 0 THEN [slot |-> "none", status |-> "WrongCommit"]
+  ELSE IF h = k.C.h THEN [slot |-> "none", status |-> "WrongCommit"]
   ELSE IF h < k.C.h THEN [slot |-> "none", status |-> "BeforeCommitting"]
   ELSE IF h > k.V.h THEN [slot |-> "none", status |-> "Future"]
   ELSE [slot |-> "none", status |-> "PANIC"]      \* "TODO: unhandled attempt to find view"
